@@ -531,7 +531,9 @@ def params_table(fn):
     key = "params:" + fn
     if key in _CACHE:
         return _CACHE[key]
-    eng = engine(inline=lambda n, r: r in PARAM_INLINE or n in PARAM_INLINE)
+    # (the pulls of Parameters and whatever private workers they are written with are analysed in place)
+    _own = inline_inherent(("scpi::parser::parameters::",))
+    eng = engine(inline=lambda n, r: r in PARAM_INLINE or n in PARAM_INLINE or ((r.startswith("scpi::parser::parameters::Parameters::") or n.startswith("scpi::parser::parameters::Parameters::")) and _own(n, r)))
     eng.max_depth = 10
     u = eng.unit
     body = u.body("scpi::parser::parameters::Parameters::" + fn)
